@@ -328,3 +328,153 @@ def direct_const(fn, operand, depth=8):
         else:
             return None
     return None
+
+
+# ---- expression reconstruction -------------------------------------------------------------------
+# Rebuilds, for a straight-line single-definition value, the expression tree that produced it.  Wrappers
+# that do not change the value (`?`, unwrap, borrow, clone, into ...) are looked through.  A local with
+# several definitions (loop-carried or branch-merged) becomes ('phi', local).
+
+TRANSPARENT = {"branch", "unwrap", "expect", "clone", "deref", "deref_mut", "borrow", "borrow_mut", "as_ref", "as_mut",
+               "into", "into_iter", "to_owned", "unwrap_unchecked", "copied", "cloned"}
+
+
+def _fields(projs):
+    return tuple(x[2] for x in projs if isinstance(x, (list, tuple)) and x[0] == "f")
+
+
+def expr(fn, o, depth=14, transparent=TRANSPARENT):
+    """operand -> term:
+         ('const', name|value) | ('arg', n, fields) | ('call', name, (terms...), fields, path) |
+         ('bin', op, a, b) | ('un', op, a) | ('agg', what, (terms...)) | ('phi', local, fields) | ('rv', kind) | ('deep',)"""
+    if depth <= 0:
+        return ("deep",)
+    if "k" in o:
+        k = o["k"]
+        if "v" in k:
+            return ("const", k["v"])
+        nm = k.get("def") or k.get("static") or k.get("param") or (k.get("pdefs") or ["?"])[0]
+        return ("const", nm.rsplit("::", 1)[-1] if isinstance(nm, str) else nm)
+    p = op_place(o)
+    l, projs = place_parts(p)
+    fields = _fields(projs)
+    defs = fn.defs()
+    ds = defs.get(l, [])
+    if not ds:
+        if 1 <= l <= fn.d["argc"]:
+            return ("arg", l, fields)
+        return ("phi", l, fields)
+    if len(ds) != 1:
+        return ("phi", l, fields)
+    d = ds[0]
+
+    def with_fields(t, fs):
+        if not fs:
+            return t
+        if t[0] == "arg":
+            return ("arg", t[1], t[2] + fs)
+        if t[0] == "phi":
+            return ("phi", t[1], t[2] + fs)
+        if t[0] == "agg" and t[3] and fs[0] in t[3]:
+            return with_fields(t[2][t[3].index(fs[0])], fs[1:])
+        if t[0] == "call":
+            return ("call", t[1], t[2], t[3] + fs, t[4])
+        return ("proj", t, fs)
+
+    if d[2] == "call":
+        t = d[3]
+        name = t["f"].get("name")
+        if name in transparent and t["args"]:
+            inner = expr(fn, t["args"][0], depth - 1, transparent)
+            # `?` / unwrap payload projections (.0 of Continue / Some) are not field selections of the inner value
+            fs = fields
+            if name in ("branch", "unwrap", "expect") and fs[:1] == ("0",):
+                fs = fs[1:]
+            return with_fields(inner, fs)
+        return ("call", name, tuple(expr(fn, a, depth - 1, transparent) for a in t["args"]), fields, t["f"].get("path") or "")
+    if d[2] != "assign":
+        return ("rv", d[2])
+    r = d[3]["r"]
+    k = r["k"]
+    if k in ("use", "cast"):
+        return with_fields(expr(fn, r["o"], depth - 1, transparent), fields)
+    if k == "ref" or k == "addr":
+        return with_fields(expr(fn, {"c": r["p"]}, depth - 1, transparent), fields)
+    if k == "bin":
+        return ("bin", r["op"], expr(fn, r["a"], depth - 1, transparent), expr(fn, r["b"], depth - 1, transparent))
+    if k == "un":
+        return ("un", r.get("op"), expr(fn, r["o"], depth - 1, transparent))
+    if k == "agg":
+        what = r.get("variant") or r.get("adt") or r.get("ak")
+        t = ("agg", what, tuple(expr(fn, a, depth - 1, transparent) for a in r.get("ops", [])), tuple(r.get("fields") or [str(i) for i in range(len(r.get("ops", [])))]))
+        return with_fields(t, fields)
+    return ("rv", k)
+
+
+def show(t):
+    """compact printable form of an expression term"""
+    if not isinstance(t, tuple):
+        return str(t)
+    h = t[0]
+    if h == "const":
+        return str(t[1])
+    if h == "arg":
+        return "arg%d%s" % (t[1], "".join("." + f for f in t[2]))
+    if h == "phi":
+        return "phi%d%s" % (t[1], "".join("." + f for f in t[2]))
+    if h == "call":
+        return "%s(%s)%s" % (t[1], ", ".join(show(a) for a in t[2]), "".join("." + f for f in t[3]))
+    if h == "bin":
+        return "(%s %s %s)" % (show(t[2]), t[1], show(t[3]))
+    if h == "un":
+        return "%s(%s)" % (t[1], show(t[2]))
+    if h == "agg":
+        return "%s{%s}" % (t[1], ", ".join(show(a) for a in t[2]))
+    if h == "proj":
+        return "%s%s" % (show(t[1]), "".join("." + f for f in t[2]))
+    return h
+
+
+def sccs(fn):
+    """non-trivial strongly connected components of the CFG (loops), as a list of block sets (Kosaraju, iterative)"""
+    succ = fn.succ()
+    n = len(succ)
+    pred = [[] for _ in range(n)]
+    for a in range(n):
+        for b in succ[a]:
+            pred[b].append(a)
+    seen, order = [False] * n, []
+    for r in range(n):
+        if seen[r]:
+            continue
+        st = [(r, iter(succ[r]))]
+        seen[r] = True
+        while st:
+            x, it = st[-1]
+            adv = False
+            for y in it:
+                if not seen[y]:
+                    seen[y] = True
+                    st.append((y, iter(succ[y])))
+                    adv = True
+                    break
+            if not adv:
+                order.append(x)
+                st.pop()
+    comp = [None] * n
+    out = []
+    for r in reversed(order):
+        if comp[r] is not None:
+            continue
+        cur, st = set(), [r]
+        comp[r] = r
+        while st:
+            x = st.pop()
+            cur.add(x)
+            for y in pred[x]:
+                if comp[y] is None:
+                    comp[y] = r
+                    st.append(y)
+        if len(cur) > 1 or any(x in succ[x] for x in cur):
+            out.append(cur)
+    return out
